@@ -108,6 +108,8 @@ def c15_histories(out, prop, tier, wd, only_why=None):
     harmless node by node and dangerous in combination; after every successful state-changing call the document is
     printed, re-parsed and both content signatures are logged; Trace_Dom.tla (c15) judges"""
     nh, ln = {"quick": (30, 60), "thorough": (600, 100)}[tier]
+    if prop != "C15" and tier == "thorough":
+        nh = 200          # a side run of C12 / C13: a third of C15's own depth
     rec = os.path.join(wd, "c15hist.trace")
     so, crashed = C.run_harness_watched(["dom-record", "--out", rec, "--histories", str(nh), "--len", str(ln),
                                          "--seed", str(C.seed()), "--c15"], rec, timeout=3000)
